@@ -316,7 +316,7 @@ def run(ctx: Ctx):
             seqs += [list(s) for s in itertools.product(alpha, repeat=exhaustive_len) if legal_fifo(s, N)]
         for ops in seqs:
             tasks.append(("fifo", r["vhdl"], ops))
-            reqs.append(f"c14 fifo {N} " + " ".join(ops))
+            reqs.append(f"fifo {N} " + " ".join(ops))
             meta.append(("fifo", N, W, None, ops))
     for (N, W, m), r in zip(stack_cfgs, compiled[len(fifo_cfgs):]):
         if not r["ok"]:
@@ -328,10 +328,10 @@ def run(ctx: Ctx):
             seqs += [list(s) for s in itertools.product(alpha, repeat=exhaustive_len) if legal_stack(s, N, drop)]
         for ops in seqs:
             tasks.append(("stack", r["vhdl"], ops))
-            reqs.append(f"c14 stack {'drop' if drop else 'noov'} {N} " + " ".join(ops))
+            reqs.append(f"stack {'drop' if drop else 'noov'} {N} " + " ".join(ops))
             meta.append(("stack", N, W, m, ops))
 
-    model = lean_io.query(reqs)
+    model = lean_io.query("C14", reqs)
     impl = fork_map(_sim_task, tasks, fresh=False, chunk=8)
     mismatches = 0
     for (kind, N, W, m, ops), mo, im, task, req in zip(meta, model, impl, tasks, reqs):
@@ -354,13 +354,13 @@ def run(ctx: Ctx):
                 continue  # enough replays; the count is still reported
             # failing-input search: the model is proved equal to the abstract queue/list on legal sequences and only
             # spec-defined observables are compared, so a differing sequence is a failing input; minimise it
-            head = req.split(" ")[: (3 if kind == "fifo" else 4)]
+            head = req.split(" ")[: (2 if kind == "fifo" else 3)]
             legal = (lambda o: legal_fifo(o, N)) if kind == "fifo" else (lambda o: legal_stack(o, N, m == "DROP_OLD"))
 
             def fails(cand):
                 if not legal(cand):
                     return False
-                mo2 = lean_io.query([" ".join(head + list(cand))])[0]
+                mo2 = lean_io.query("C14", [" ".join(head + list(cand))])[0]
                 try:
                     im2 = _sim_task((kind, task[1], list(cand)))
                 except Exception:
@@ -368,7 +368,7 @@ def run(ctx: Ctx):
                 return mask(kind, canon_stack_model(mo2) if kind == "stack" else mo2) != mask(kind, im2)
 
             small = shrink_ops(ops[: first_diff(mo, im)[0] + 1], fails)
-            mo2 = lean_io.query([" ".join(head + small)])[0]
+            mo2 = lean_io.query("C14", [" ".join(head + small)])[0]
             mo2 = mask(kind, canon_stack_model(mo2) if kind == "stack" else mo2)
             im2 = mask(kind, _sim_task((kind, task[1], small)))
             i, x, y = first_diff(mo2, im2)
@@ -402,8 +402,8 @@ def replay(ctx, data):
         print("wrapper rejected:", c)
         return 1
     im = _sim_task((kind, c["vhdl"], ops))
-    head = f"c14 fifo {N} " if kind == "fifo" else f"c14 stack {'drop' if m == 'DROP_OLD' else 'noov'} {N} "
-    mo = lean_io.query([head + " ".join(ops)])[0]
+    head = f"fifo {N} " if kind == "fifo" else f"stack {'drop' if m == 'DROP_OLD' else 'noov'} {N} "
+    mo = lean_io.query("C14", [head + " ".join(ops)])[0]
     mo = mask(kind, canon_stack_model(mo) if kind == "stack" else mo)
     im = mask(kind, im)
     print("ops     :", " ".join(ops))
